@@ -1,10 +1,75 @@
 import CoxeterVerif.Driver.Proto
+import CoxeterVerif.Model.DistToSurface
+import CoxeterVerif.Spec.DistToSurface
 
 namespace OpsC14
+
+def rdP2 {α} [Codec α] (c : Ctx) : Rd (P2 α) := do
+  let x ← Rd.sc c; let y ← Rd.sc c; pure ⟨x, y⟩
+
+def rdM2 {α} [Codec α] (c : Ctx) : Rd (M2 α) := do
+  let a ← Rd.sc c; let b ← Rd.sc c; let cc ← Rd.sc c; let d ← Rd.sc c; pure ⟨a, b, cc, d⟩
+
+def rdBool (c : Ctx) : Rd Bool := do let v ← Rd.int c; pure (v != 0)
+
+/-- all `some` → the values, otherwise `none` -/
+def allSome {β} (l : List (Option β)) : Option (List β) := l.mapM id
+
+def outP2s {α} [Codec α] (l : List (P2 α)) : String :=
+  " ".intercalate (l.map fun p => s!"{Out.sc p.x} {Out.sc p.y}")
 
 /-- driver ops of C14. `none` = unknown op. -/
 def run (α : Type) [Scalar α] [Codec α] (op : String) (c : Ctx) : Option (Rd String) :=
   match op with
+  | "c14.circle" => some do
+      -- in: r, angles ; out: d per angle
+      let r : α ← Rd.sc c
+      let th : List α ← Rd.list c (Rd.sc c)
+      pure (Out.scs (th.map (DTS.circleDts r)))
+  | "c14.ellipse" => some do
+      -- in: a b, angles ; out: d per angle
+      let a : α ← Rd.sc c
+      let b : α ← Rd.sc c
+      let th : List α ← Rd.list c (Rd.sc c)
+      pure (Out.scs (th.map (DTS.ellipseDts a b)))
+  | "c14.cpoly" => some do
+      -- in: R(4) flip verts center angles ; out: d per angle | E:unassigned
+      let R : M2 α ← rdM2 c
+      let flip ← rdBool c
+      let V : List (P2 α) ← Rd.list c (rdP2 c)
+      let cen : P2 α ← rdP2 c
+      let th : List α ← Rd.list c (Rd.sc c)
+      match allSome (th.map (DTS.cpolyDtsFrom R flip V cen)) with
+      | some ds => pure (Out.scs ds)
+      | none => pure "E:unassigned"
+  | "c14.spg" => some do
+      -- in: Rk(4) flipK flip verts centroid r angles ; out: d per angle | E:unassigned
+      let Rk : M2 α ← rdM2 c
+      let flipK ← rdBool c
+      let flip ← rdBool c
+      let V : List (P2 α) ← Rd.list c (rdP2 c)
+      let cen : P2 α ← rdP2 c
+      let r : α ← Rd.sc c
+      let th : List α ← Rd.list c (Rd.sc c)
+      match allSome (th.map (DTS.spgDts Rk flipK flip V cen r)) with
+      | some ds => pure (Out.scs ds)
+      | none => pure "E:unassigned"
+  | "c14.spg.newverts" => some do
+      -- in: flip verts centroid r ; out: x y per expanded vertex
+      let flip ← rdBool c
+      let V : List (P2 α) ← Rd.list c (rdP2 c)
+      let cen : P2 α ← rdP2 c
+      let r : α ← Rd.sc c
+      pure (outP2s (DTS.spgNewVerts flip V cen r))
+  | "c14.spec.poly" => some do
+      -- in: verts, directions u ; out: centroid(2), then per direction the exit parameter t
+      --     of the ray centroid + t u | E:no-hit     (exact when run in mode Q)
+      let V : List (P2 α) ← Rd.list c (rdP2 c)
+      let us : List (P2 α) ← Rd.list c (rdP2 c)
+      let cen := Spec.polyCentroid V
+      match allSome (us.map (Spec.rayExit V cen)) with
+      | some ts => pure s!"{Out.sc cen.x} {Out.sc cen.y} {Out.scs ts}"
+      | none => pure "E:no-hit"
   | _ => none
 
 end OpsC14
